@@ -265,7 +265,7 @@ PIPE_RULE = ('one case = (pipeline, history, choices): a chain of 1-4 pipes draw
 PIPE_ASSUME = ['one simulated thread; nondeterminism = order of ready pumps, allocator failures, and the instants chosen by the plan',
                'the reference model of upipe_helper_output (drop without flow def / output, negotiate before sending, renegotiate after a change, invalid after a rejection) is the specification the real pipes are compared with',
                'once an injected allocation failure fired in a run, only the model-free oracles stay armed (order and exactly-once at sinks, flow def before data, ready/dead ordering, nothing left allocated)',
-               'catalogue = the 12 pipe types listed under real_code; other modules are not exercised']
+               'reference models exist for the 12 pipe types of the E-pipe catalogue; the sweep engine (esweep) adds 29 more pipe types under model-free oracles: lifecycle (C01, C04), order / same payload / immediate delivery where the pipe type promises them (C05), option read-back (C20)']
 for _p in ('C01', 'C04', 'C05', 'C20'):
     PROPS[_p] = {'engine': 'epipe', 'quick_time': 30, 'thorough_time': 600, 'rule': PIPE_RULE, 'assumptions': list(PIPE_ASSUME)}
 PROPS['C12'] = {'engine': 'epipe', 'engines': ['epipe', 'ethread'], 'quick_time': 30, 'thorough_time': 600,
@@ -275,12 +275,15 @@ PROPS['C12'] = {'engine': 'epipe', 'engines': ['epipe', 'ethread'], 'quick_time'
              'teardown with requests still registered or unregistered first. Distinct = distinct plan hash.'),
     'assumptions': ['in-thread chains only: the cross-queue part of C12 is not covered by this check',
                     'request types exercised: sink latency and flow format']}
-PROPS['C20']['engines'] = ['epipe', 'estream']
+PROPS['C20']['engines'] = ['epipe', 'estream', 'esweep']
+PROPS['C20']['quick_time'] = 45
 PROPS['C02']['engines'] = ['ebuf', 'ebufps']
 PROPS['C02']['quick_time'] = 30
 PROPS['C01']['engines'] = ['epipe', 'ethread', 'esweep']
 PROPS['C01']['quick_time'] = 45
 PROPS['C04']['engines'] = ['epipe', 'esweep']
+PROPS['C05']['engines'] = ['epipe', 'esweep']
+PROPS['C05']['quick_time'] = 40
 PROPS['C04']['quick_time'] = 40
 PROPS['C20']['rule'] += (' Second engine (estream): the size / mtu+align / sync-count options of aggregate, chunk_stream, ts_sync, ts_check set in mid-stream '
                         'with allocation failures inside the setter, getters at random instants.')
